@@ -318,7 +318,9 @@ Inductive label :=
 | Tick (dt : Z)
 | Notify (p : Z)
 | EditCfg (w t : Z)
-| ParentDies.
+| ParentDies
+| ExitTold                  (* every running child that was told to stop exits with status 0 *)
+| NotifyAll.                (* every running worker notifies *)
 
 Definition zmem (z : Z) (l : list Z) : bool := existsb (Z.eqb z) l.
 
@@ -335,6 +337,21 @@ Definition notify (s : st) (p : Z) : st :=
   | None => s
   end.
 
+Definition fatal (sg : Z) : bool := (sg =? SIGTERM) || (sg =? SIGQUIT) || (sg =? SIGABRT) || (sg =? SIGINT).
+Definition told (c : child) : bool := is_running c && existsb fatal (c_sigs c).
+Definition exit_told (s : st) : st :=
+  set_kids s (map (fun c => if told c then mkChild (c_pid c) (Zombie 0) (c_sigs c) (c_master c) else c) (kids s)).
+
+Definition live_pid (l : list child) (p : Z) : bool :=
+  existsb (fun c => (c_pid c =? p) && is_running c && negb (c_master c)) l.
+Definition notify_all (s : st) : st :=
+  let s1 := set_workers s (map (fun w => if live_pid (kids s) (w_pid w)
+                                          then mkWk (w_pid w) (w_age w) (w_aborted w) (mono s) else w) (workers s)) in
+  match cur s1 with
+  | PRegister q age hb k => if live_pid (kids s1) q then set_pc s1 (PRegister q age (mono s1) k) else s1
+  | _ => s1
+  end.
+
 Definition step (s : st) (l : label) : st :=
   match l with
   | Master => master s
@@ -348,6 +365,8 @@ Definition step (s : st) (l : label) : st :=
   | Notify p => notify s p
   | EditCfg w t => if (0 <=? w) && (0 <=? t) then set_disk s w t else s   (* the validators refuse negative values *)
   | ParentDies => set_orphan s true
+  | ExitTold => exit_told s
+  | NotifyAll => notify_all s
   end.
 
 Definition run (s : st) (ls : list label) : st := fold_left step ls s.
@@ -401,16 +420,12 @@ Definition run_obs (s : st) (ls : list label) : list Z := run_obs_from s 0 ls.
 (* "once events stop": nothing happens any more except what fairness demands - workers that were told
    to stop do exit and SIGCHLD is delivered (at the top of the main loop, and in the naps of stop()),
    healthy workers keep proving liveness (before every select()). *)
-Definition fatal (sg : Z) : bool := (sg =? SIGTERM) || (sg =? SIGQUIT) || (sg =? SIGABRT) || (sg =? SIGINT).
-Definition told (c : child) : bool := is_running c && existsb fatal (c_sigs c).
 Definition exit_point (p : pc) : bool := match p with PSigq | PStopNap _ _ => true | _ => false end.
 Definition notify_point (p : pc) : bool := match p with PSelect => true | _ => false end.
 Definition fair_env (s : st) : list label :=
   if exit_point (cur s) then
-    map (fun c => Exit (c_pid c) 0) (filter told (kids s)) ++
-    (if existsb told (kids s) || existsb is_zombie (kids s) then [Chld] else [])
-  else if notify_point (cur s) then
-    map (fun c => Notify (c_pid c)) (filter (fun c => is_running c && negb (c_master c)) (kids s))
+    (if existsb told (kids s) || existsb is_zombie (kids s) then [ExitTold; Chld] else [])
+  else if notify_point (cur s) then [NotifyAll]
   else [].
 Definition settle_step (s : st) : st := master (run s (fair_env s)).
 Fixpoint settle (n : nat) (s : st) : st :=
